@@ -152,7 +152,7 @@ def check(run, ctx):
     ok = any(is_call_named(n, "get_relative_path") for n in ast.walk(lp.node)) and any(is_call_named(n, "check_all_rules") for n in ast.walk(lp.node))
     (run.ok(V6, "lint_path", "check_all_rules(normalised get_relative_path(file))") if ok else run.finding(V6, "FilePlacementLinter.lint_path", "not-relative", "the judged path is not obtained from get_relative_path", lp.loc))
     gr = repo.func(f"{PKG}.path_resolver.PathResolver.get_relative_path")
-    resolves = any(isinstance(n, ast.Call) and call_name(n) in ("resolve", "absolute") for n in ast.walk(gr.node))
+    resolves = any(isinstance(n, ast.Call) and call_name(n) in ("resolve", "absolute", "cwd") for n in ast.walk(gr.node)) and sum(1 for n in ast.walk(gr.node) if isinstance(n, ast.Call) and call_name(n) == "relative_to") >= (2 if any(isinstance(n, ast.If) and "is_absolute" in ast.unparse(n.test) for n in ast.walk(gr.node)) else 1)
     raw_rel = any(isinstance(n, ast.If) and "is_absolute" in ast.unparse(n.test) for n in ast.walk(gr.node))
     if resolves or not raw_rel:
         run.ok(V6, "get_relative_path", "relative inputs are made absolute before relative_to(project_root)")
